@@ -1,6 +1,8 @@
 package main
 
 import (
+	"go/token"
+	"sort"
 	"fmt"
 	"strings"
 
@@ -13,13 +15,49 @@ func init() {
 		Decides: "(R25.1) every key a PrefixStorage method hands to the raw storage is the nil-checked result of st.key(...) (prefix ++ key, built only while the prefix is set), every range it hands over is BytesPrefix(prefix) of a non-nil prefix whose bounds are only replaced by st.key(bound), and keys handed back to the caller are stripped by origkey; prefix/prefixlen are written only by the constructor and Close; " +
 			"(R25.2) a prefix batch prefixes every key it takes, is made only from the storage's prefix, and reaches the raw storage only behind the closed check (Batch, BatchFunc add/done); " +
 			"(R25.3) Remove runs RemoveByPrefix only with a non-nil own prefix; RemoveByPrefix and BatchRemove delete exactly the keys their iteration over the given range handed them, write the batch only after the iteration succeeded, and never widen the range; " +
-			"(R25.4) the raw storage behind a PrefixStorage is reached only inside storage/leveldb (RawStorage has no caller in the build, the embedded field is touched only by the tabled methods).",
+			"(R25.4) the raw storage behind a PrefixStorage is reached only inside storage/leveldb (RawStorage has no caller in the build, the embedded field is touched only by the tabled methods).; (R25.5) every exported method of the embedded Storage is overridden by PrefixStorage (or tabled as promoted on purpose)",
 		NotDecided: "prefixes that are byte-prefixes of one another (\"aa\" and \"aab\"): mitum's prefixes are fixed-length labels, nothing in the type enforces it; goleveldb's own range semantics; the values stored under a key.",
 		Run:        runC25,
 	})
 }
 
 func runC25(c *Ctx) {
+	// R25.5: PrefixStorage embeds *Storage: every exported method of Storage that is not overridden is
+	// promoted and works on the whole key space
+	c.Rule("R25.5", "Exhaustive")
+	{
+		exempt := map[string]string{
+			"DB":                    "hands out the raw database handle by name",
+			"BatchFuncWithNewBatch": "takes the batch constructor from the caller; PrefixStorage.BatchFunc passes the prefixing one",
+		}
+		own := map[string]bool{}
+		for _, f := range c.FuncsWithPrefix("storage/leveldb.(*PrefixStorage).") {
+			if f.Parent() == nil {
+				own[strings.TrimPrefix(c.FuncKey(f), "storage/leveldb.(*PrefixStorage).")] = true
+			}
+		}
+		n := 0
+		var names []string
+		for _, f := range c.FuncsWithPrefix("storage/leveldb.(*Storage).") {
+			if f.Parent() != nil {
+				continue
+			}
+			names = append(names, strings.TrimPrefix(c.FuncKey(f), "storage/leveldb.(*Storage)."))
+		}
+		sort.Strings(names)
+		for _, name := range names {
+			if name == "" || !token.IsExported(name) {
+				continue
+			}
+			n++
+			if why, ok := exempt[name]; ok {
+				c.Report(nil, "Storage."+name+" promoted to PrefixStorage on purpose", 0, true, why)
+				continue
+			}
+			c.Report(nil, "Storage."+name+" is overridden by PrefixStorage (a promoted method works on every prefix)", 0, own[name], "")
+		}
+		c.Floor(nil, "exported methods of Storage", n, 9)
+	}
 	const PS = "storage/leveldb.(*PrefixStorage)."
 	// R25.1 --------------------------------------------------------------------------------------
 	c.Rule("R25.1", "KeyDerivation")
